@@ -397,6 +397,16 @@ def run_property(prop, tier, seed, replay=None):
     obligations = []     # (name, ok)
     info = {}
 
+    # stale replay files of earlier runs of this property are removed
+    rd = os.path.join(ROOT, 'evidence', 'replay')
+    if os.path.isdir(rd) and not replay:
+        for fn in os.listdir(rd):
+            if fn.startswith(pid + '_'):
+                try:
+                    os.remove(os.path.join(rd, fn))
+                except OSError:
+                    pass
+
     # 1. regenerate from /repo
     gen = regenerate()
     info['translator'] = {'generated': gen.get('generated'), 'failed': gen.get('failed')}
